@@ -123,6 +123,7 @@ def nontrivial(op, out):
 
 
 def oracle(ctx):
+    core.io_inventory_obligation(ctx.res, ('read', 'metadata'))
     res = ctx.res
     rnd = ctx.rnd
     # (T1) inventory vs classification
